@@ -824,7 +824,17 @@ impl<T: Transport, Env: UtpEnvironment> VirtualSocket<T, Env> {
                 debug!(payload_size, ?self.last_sent_seq_nr, ?rewind_to, "MTU probe expired");
                 // In case the retransmit timer expired, this is not "real" expiry, but expiry due to us sending
                 // too large segment. So ignore the retransmit timer, pretend it didn't fire.
-                self.timers.retransmit.turn_off("MTU probe is not real RTO");
+                if self.user_tx_segments.is_empty() {
+                    self.timers.retransmit.turn_off("MTU probe is not real RTO");
+                } else {
+                    // Other segments are still unacknowledged: they keep a retransmission timer.
+                    self.timers.retransmit.arm(
+                        self.this_poll.now,
+                        self.rtte.retransmission_timeout(),
+                        true,
+                        "MTU probe is not real RTO",
+                    );
+                }
                 self.rto_retransmissions = 0;
 
                 // TODO: do we need to IF here? Maybe min instead?
